@@ -1,6 +1,7 @@
 import Mathlib.Tactic
 import Mathlib.Analysis.Normed.Algebra.MatrixExponential
 import QG.Lemmas.GatesZeroNoise
+import QG.Lemmas.GatesUnitary
 
 /-!
 # C07 (part 1) — zero noise gives the ideal gate exactly
@@ -128,5 +129,89 @@ theorem scaled_CNOT_zero_noise (F : ℝ → ℝ) (scale phi_ctr phi_trg t : ℝ)
     Scaled.CNOT F scale phi_ctr phi_trg t 0 0 0 0 0 0 0 w
       = NoiseFree.CNOT phi_ctr phi_trg t 0 0 0 0 0 0 0 := by
   simp only [Scaled.CNOT, zero_mul, zero_div, gates_CNOT_zero_noise _ _ _ _ _ hI]
+
+
+/-! # C07 (part 2) — with relaxation off (`T1 = 0`) every sample is exactly unitary
+
+`Real.sqrt` is total in Lean (`0` on negative numbers) whereas `np.sqrt` yields NaN there; the
+hypotheses `0 ≤ p`, `0 ≤ T2`, `0 ≤ p_cr`, `0 < t_cr` name the domain on which the generated
+definitions and the Python agree (they are the physically meaningful values; the region where the
+*derived* cross-resonance error is negative is excluded by `0 ≤ p_cr` — see DESIGN.md, R2). -/
+
+abbrev U2 := unitary (Matrix (Fin 2) (Fin 2) ℂ)
+abbrev U4 := unitary (Matrix (Fin 4) (Fin 4) ℂ)
+
+theorem single_qubit_unitary (F : ℝ → ℝ) (theta phi p T2 : ℝ) (_hp : 0 ≤ p) (_hT2 : 0 ≤ T2)
+    (w : SingleQubit.Samples) : SingleQubit.construct F theta phi p 0 T2 w ∈ U2 := by
+  obtain ⟨h0, h1, h2⟩ := sq_env_rel F theta phi p 0 T2 w
+  exact sq_gate_unitary _ (sq_env_real F theta phi p 0 T2 w) h0 h1 h2
+    (by simp [SingleQubit.envOf, SingleQubit.e1])
+
+theorem x_unitary (F : ℝ → ℝ) (phi p T2 : ℝ) (hp : 0 ≤ p) (hT2 : 0 ≤ T2) (w : X.Samples) :
+    X.construct F phi p 0 T2 w ∈ U2 := by
+  unfold X.construct; exact single_qubit_unitary F _ phi p T2 hp hT2 _
+
+theorem sx_unitary (F : ℝ → ℝ) (phi p T2 : ℝ) (hp : 0 ≤ p) (hT2 : 0 ≤ T2) (w : SX.Samples) :
+    SX.construct F phi p 0 T2 w ∈ U2 := by
+  unfold SX.construct; exact single_qubit_unitary F _ phi p T2 hp hT2 _
+
+theorem cr_unitary (F : ℝ → ℝ) (theta phi t_cr p_cr T2c T2t : ℝ) (_ht : 0 < t_cr) (_hp : 0 ≤ p_cr)
+    (_hc : 0 ≤ T2c) (_htt : 0 ≤ T2t) (w : CR.Samples) :
+    CR.construct F theta phi t_cr p_cr 0 T2c 0 T2t w ∈ U4 := by
+  obtain ⟨h0, h1, h2⟩ := cr_env_rel F theta phi t_cr p_cr 0 T2c 0 T2t w
+  exact cr_gate_unitary _ (cr_env_real F theta phi t_cr p_cr 0 T2c 0 T2t w) h0 h1 h2
+    (by simp [CR.envOf, CR.e1_ctr]) (by simp [CR.envOf, CR.e1_trg])
+
+theorem bitflip_unitary (tm rout : ℝ) (w : Bitflip.Samples) : Bitflip.construct tm rout w ∈ U2 := by
+  rw [Unitary.mem_iff]
+  have key : star (Bitflip.construct tm rout w) * Bitflip.construct tm rout w = 1 := by
+    ext a b; fin_cases a <;> fin_cases b <;>
+      simp [Bitflip.construct, Bitflip.resultMat, Matrix.mul_apply, Fin.sum_univ_two, Matrix.star_apply,
+        ← Complex.cos_conj, ← Complex.sin_conj]
+    · have := Complex.cos_sq_add_sin_sq ((Bitflip.e rout tm : ℂ) * (w.W : ℂ))
+      linear_combination this - (Complex.sin ((Bitflip.e rout tm : ℂ) * (w.W : ℂ))) ^ 2 * Complex.I_sq
+    · ring
+    · ring
+    · have := Complex.cos_sq_add_sin_sq ((Bitflip.e rout tm : ℂ) * (w.W : ℂ))
+      linear_combination this - (Complex.sin ((Bitflip.e rout tm : ℂ) * (w.W : ℂ))) ^ 2 * Complex.I_sq
+  exact ⟨key, (mul_eq_one_comm).mp key⟩
+
+theorem depolarizing_unitary (Dt p : ℝ) (_hp : 0 ≤ p) (w : Depolarizing.Samples) :
+    Depolarizing.construct Dt p w ∈ U2 := by
+  apply exp_unitary_of_skew
+  ext a b; fin_cases a <;> fin_cases b <;>
+    simp [Depolarizing.noiseArg, Depolarizing.I1Mat, Depolarizing.I2Mat, Depolarizing.I3Mat,
+      Depolarizing.XMat, Depolarizing.YMat, Depolarizing.ZMat, Matrix.conjTranspose_apply] <;> ring
+
+theorem relaxation_unitary (Dt T2 : ℝ) (_hT2 : 0 ≤ T2) (w : Relaxation.Samples) (hI : w.I = 0) :
+    Relaxation.construct Dt 0 T2 w ∈ U2 := by
+  rw [Unitary.mem_iff]
+  have key : star (Relaxation.construct Dt 0 T2 w) * Relaxation.construct Dt 0 T2 w = 1 := by
+    ext a b; fin_cases a <;> fin_cases b <;>
+      simp [Relaxation.construct, Relaxation.resultMat, Relaxation.e1, Matrix.mul_apply, Fin.sum_univ_two,
+        Matrix.star_apply, hI, ← Complex.exp_conj, ← Complex.exp_add]
+  exact ⟨key, (mul_eq_one_comm).mp key⟩
+
+/-- scalar multiples by a unimodular number stay unitary (the `-1J *` / `1j *` factors of the ECR gates) -/
+private theorem smul_unitary {n : Type} [Fintype n] [DecidableEq n] (z : ℂ) (hz : star z * z = 1)
+    {A : Matrix n n ℂ} (hA : A ∈ unitary (Matrix n n ℂ)) : z • A ∈ unitary (Matrix n n ℂ) := by
+  rw [Unitary.mem_iff] at hA ⊢
+  have hz' : z * star z = 1 := by rw [mul_comm]; exact hz
+  constructor
+  · rw [star_smul, smul_mul_smul_comm, hA.1, hz, one_smul]
+  · rw [star_smul, smul_mul_smul_comm, hA.2, hz', one_smul]
+
+theorem cnot_unitary (F : ℝ → ℝ) (phi_ctr phi_trg t_cnot p_cnot p_c p_t T2c T2t : ℝ)
+    (hcr : 0 ≤ CNOT.p_cr p_cnot p_c p_t) (ht : 0 < CNOT.t_cr t_cnot)
+    (hpc : 0 ≤ p_c) (hpt : 0 ≤ p_t) (hc : 0 ≤ T2c) (htt : 0 ≤ T2t)
+    (w : CNOT.Samples) (hI : w.relaxation_gate.I = 0) :
+    CNOT.construct F phi_ctr phi_trg t_cnot p_cnot p_c p_t 0 T2c 0 T2t w ∈ U4 := by
+  unfold CNOT.construct
+  refine mul_mem (mul_mem (mul_mem (cr_unitary F _ _ _ _ _ _ ht hcr hc htt _) (kron2_mem_unitary ?_ ?_))
+    (cr_unitary F _ _ _ _ _ _ ht hcr hc htt _)) (kron2_mem_unitary ?_ ?_)
+  · exact x_unitary F _ _ _ hpc hc _
+  · exact relaxation_unitary _ _ htt _ hI
+  · exact single_qubit_unitary F _ _ _ _ hpc hc _
+  · exact sx_unitary F _ _ _ hpt htt _
 
 end QG.C07
